@@ -57,7 +57,7 @@ type For struct {
 	Count   Expr
 	Body    []Item
 	Dead    []string // only for blocks whose count is the literal 0: lines written verbatim into the body (an END line, old code fenced off); they vanish with the body
-	Asserts []Expr // ;assert lines written inside the body (closed expressions: no counter, no labels): they count when the block is expanded at least once
+	Asserts []Expr   // ;assert lines written inside the body (closed expressions: no counter, no labels): they count when the block is expanded at least once
 }
 
 type Org struct{ E Expr }
